@@ -10,6 +10,7 @@ import (
 	"iter"
 	"maps"
 	"os"
+	"path/filepath"
 	"slices"
 	"strings"
 	"sync"
@@ -105,12 +106,44 @@ func (s *ManagedServer) saveToFile() error {
 	}
 	b = append(b, '\n') // b has plenty of unused capacity.
 
-	if err = os.WriteFile(s.path, b, 0644); err != nil {
+	if err = writeFileAtomic(s.path, b, 0644); err != nil {
 		return err
 	}
 
 	s.cachedContent = unsafe.String(unsafe.SliceData(b), len(b))
 	return nil
+}
+
+// writeFileAtomic writes data to a temporary file in the same directory
+// and renames it over the named file, so that the named file always holds
+// either the old or the new content, even if the write fails or the process dies.
+func writeFileAtomic(name string, data []byte, perm os.FileMode) error {
+	// Like os.WriteFile, keep the permission bits of an existing file.
+	if fi, err := os.Stat(name); err == nil {
+		perm = fi.Mode().Perm()
+	}
+	f, err := os.CreateTemp(filepath.Dir(name), filepath.Base(name)+".tmp*")
+	if err != nil {
+		return err
+	}
+	tmpName := f.Name()
+	_, err = f.Write(data)
+	if err == nil {
+		err = f.Chmod(perm)
+	}
+	if err == nil {
+		err = f.Sync()
+	}
+	if closeErr := f.Close(); err == nil {
+		err = closeErr
+	}
+	if err == nil {
+		err = os.Rename(tmpName, name)
+	}
+	if err != nil {
+		_ = os.Remove(tmpName)
+	}
+	return err
 }
 
 func (s *ManagedServer) dequeueSave(ctx context.Context) {
